@@ -10,6 +10,9 @@ From Coq Require Import List QArith ZArith Arith Bool.
 From PV Require Import Model.Dict Model.Terms.
 Import ListNotations.
 
+(** the three accuracy criteria of inexact_proximal_step ('PD_gapI', 'PD_gapII', 'PD_gapIII') *)
+Inductive ipopt : Type := PDgapI | PDgapII | PDgapIII.
+
 Inductive mop : Type :=
 | MFresh                        (* x = Point() : a free leaf point *)
 | MEval (f : nat) (p : pdict)   (* g, fx = f.oracle(p) : fresh gradient leaf, fresh value leaf *)
@@ -25,10 +28,37 @@ Inductive mop : Type :=
                                    gx0, fx0 = f.oracle(p); dx0 = Point();
                                    f.add_constraint((gx0 - dx0) ** 2 - eps ** 2 [* gx0 ** 2] <= 0);
                                    the returned x = p - gamma * dx0 is not recorded anywhere *)
-| MLineSearch (f : nat) (x0 : pdict) (dirs : list pdict).
+| MLineSearch (f : nat) (x0 : pdict) (dirs : list pdict)
                                 (* x, gx, fx = exact_linesearch_step(x0, f, dirs) (exact_linesearch_step.py):
                                    x = Point(); gx, fx = f.oracle(x); f.add_constraint((x - x0) * gx == 0);
                                    for d in dirs: f.add_constraint(d * gx == 0) *)
+| MEpsSub (f : nat) (p : pdict)
+                                (* x, g0, f0, epsilon = epsilon_subgradient_step(p, f, gamma) (epsilon_subgradient_step.py):
+                                   g0 = Point(); f0 = f.value(p) (an oracle call: fresh gradient leaf, fresh value leaf);
+                                   epsilon = Expression(); y = Point(); fy = Expression(); f.add_point((y, g0, fy));
+                                   f.add_constraint(f0 + (g0 * y - fy) - g0 * p <= epsilon);
+                                   the returned x = p - gamma * g0 is not recorded anywhere *)
+| MBregGrad (h : nat) (gx0 sx0 : pdict) (gamma : Q)
+                                (* x, sx, hx = bregman_gradient_step(gx0, sx0, h, gamma) (bregman_gradient_step.py):
+                                   x = Point(); hx = Expression(); sx = sx0 - gamma * gx0; h.add_point((x, sx, hx)) *)
+| MBregProx (h f : nat) (sx0 : pdict) (gamma : Q)
+                                (* x, sx, hx, gx, fx = bregman_proximal_step(sx0, h, f, gamma) (bregman_proximal_step.py):
+                                   x = Point(); gx = Point(); fx = Expression(); sx = sx0 - gamma * gx; hx = Expression();
+                                   f.add_point((x, gx, fx)); h.add_point((x, sx, hx)) *)
+| MInexactProx (f : nat) (x0 : pdict) (gamma : Q) (opt : ipopt).
+                                (* x, gx, fx, w, v, fw, eps_var = inexact_proximal_step(x0, f, gamma, opt)
+                                   (inexact_proximal_step.py):
+                                   PD_gapI:   v = Point(); w = Point(); fw = Expression(); f.add_point((w, v, fw));
+                                              x = Point(); gx = Point(); fx = Expression(); f.add_point((x, gx, fx));
+                                              eps_var = Expression(); e = x - x0 + gamma * v;
+                                              f.add_constraint(e ** 2 / 2 + gamma * (fx - fw - v * (x - w)) <= eps_var)
+                                   PD_gapII:  e = Point(); gx = Point(); x = x0 - gamma * gx + e; fx = Expression();
+                                              f.add_point((x, gx, fx)); eps_var = Expression();
+                                              f.add_constraint(e ** 2 / 2 <= eps_var)
+                                   PD_gapIII: x, gx, w = Point(), Point(), Point(); v = (x0 - x) / gamma;
+                                              fw, fx = Expression(), Expression(); f.add_point((x, gx, fx));
+                                              f.add_point((w, v, fw)); eps_var = Expression();
+                                              f.add_constraint(gamma * (fx - fw - v * (x - w)) <= eps_var) *)
 
 Definition msample : Type := (pdict * pdict * edict)%type.
 
@@ -64,6 +94,55 @@ Definition ls_vp (n : nat) (d : pdict) : nat -> pdict :=
 Definition ls_cons (n : nat) (d : pdict) : edict * sense :=
   compileC (fun _ => 0%Q) (ls_vp n d) (fun _ => []) (CEqS (XInner (PVar 0) (PVar 1)) (SNum 0)).
 
+(** the epsilon-subgradient constraint of epsilon_subgradient_step, as the operator overloads build it
+    ([fstarg0 = g0 * y - fy] inlined; same formula as the one the translator reads into Gen/Steps.v): point variables
+    x0 = 0 (the dictionary p), g0 = 1 (leaf n), y = 3 (leaf S (S n)); expression variables f0 = 0 (leaf e),
+    epsilon = 1 (leaf S e), fy = 2 (leaf S (S e)) *)
+Definition epssub_formula : cterm :=
+  CLe (XSub (XAdd (XVar 0) (XSub (XInner (PVar 1) (PVar 3)) (XVar 2))) (XInner (PVar 1) (PVar 0))) (XVar 1).
+Definition epssub_vp (n : nat) (p : pdict) : nat -> pdict :=
+  fun v => match v with O => p | S O => [(n, 1%Q)] | _ => [(S (S n), 1%Q)] end.
+Definition epssub_vx (e : nat) : nat -> edict :=
+  fun v => match v with O => [(KF e, 1%Q)] | S O => [(KF (S e), 1%Q)] | _ => [(KF (S (S e)), 1%Q)] end.
+Definition epssub_cons (n e : nat) (p : pdict) : edict * sense :=
+  compileC (fun _ => 0%Q) (epssub_vp n p) (epssub_vx e) epssub_formula.
+
+(** the gradient of the mirror map recorded by the two Bregman steps: [sx0 - gamma * g] is Point.__rmul__ (no
+    pruning) then Point.__sub__ (merge, prune); add_point prunes it in place once more *)
+Definition breg_dual (sx0 g : pdict) (gamma : Q) : pdict := prune (p_sub sx0 (p_scal gamma g)).
+
+(** the accuracy constraints of inexact_proximal_step ([e] and [eps_sub] inlined; same formulas as the ones the
+    translator reads into Gen/Steps.v).  Point variables: x0 = 0, v = 1, w = 2, x = 3, gx = 4, e = 5; expression
+    variables: fw = 0, fx = 1, eps_var = 2; scalar parameter 0 = gamma. *)
+Definition ip_eps_sub : xterm := XSub (XSub (XVar 1) (XVar 0)) (XInner (PVar 1) (PSub (PVar 3) (PVar 2))).
+Definition ip_formula (opt : ipopt) : cterm :=
+  match opt with
+  | PDgapI => CLe (XAdd (XDiv (XSq (PAdd (PSub (PVar 3) (PVar 0)) (PScal (SPar 0) (PVar 1)))) (SNum 2))
+                        (XScal (SPar 0) ip_eps_sub)) (XVar 2)
+  | PDgapII => CLe (XDiv (XSq (PVar 5)) (SNum 2)) (XVar 2)
+  | PDgapIII => CLe (XScal (SPar 0) ip_eps_sub) (XVar 2)
+  end.
+(** PD_gapII: the recorded point x0 - gamma * gx + e (e is leaf n, gx leaf S n); PD_gapIII: the recorded
+    (sub)gradient v = (x0 - x) / gamma (x is leaf n), pruned in place by add_point before the constraint is built *)
+Definition ip2_point (n : nat) (x0 : pdict) (gamma : Q) : pdict :=
+  prune (p_add (p_sub x0 (p_scal gamma [(S n, 1%Q)])) [(n, 1%Q)]).
+Definition ip3_grad (n : nat) (x0 : pdict) (gamma : Q) : pdict :=
+  prune (p_div (p_sub x0 [(n, 1%Q)]) gamma).
+Definition ip_vp (opt : ipopt) (n : nat) (x0 : pdict) (gamma : Q) : nat -> pdict :=
+  match opt with
+  | PDgapI => fun v => match v with O => x0 | 1 => [(n, 1%Q)] | 2 => [(S n, 1%Q)] | 3 => [(S (S n), 1%Q)]
+                                | _ => [(S (S (S n)), 1%Q)] end
+  | PDgapII => fun v => [(n, 1%Q)]
+  | PDgapIII => fun v => match v with O => x0 | 1 => ip3_grad n x0 gamma | 2 => [(S (S n), 1%Q)] | _ => [(n, 1%Q)] end
+  end%nat.
+Definition ip_vx (opt : ipopt) (e : nat) : nat -> edict :=
+  match opt with
+  | PDgapII => fun v => [(KF (S e), 1%Q)]
+  | _ => fun v => match v with O => [(KF e, 1%Q)] | 1 => [(KF (S e), 1%Q)] | _ => [(KF (S (S e)), 1%Q)] end
+  end%nat.
+Definition ip_cons (opt : ipopt) (n e : nat) (x0 : pdict) (gamma : Q) : edict * sense :=
+  compileC (fun _ => gamma) (ip_vp opt n x0 gamma) (ip_vx opt e) (ip_formula opt).
+
 Definition mstep (s : mstate) (o : mop) : mstate :=
   match o with
   | MFresh => mkM (S (m_np s)) (m_ne s) (m_samples s) (m_cons s)
@@ -93,6 +172,40 @@ Definition mstep (s : mstate) (o : mop) : mstate :=
       mkM (S (S (m_np s))) (S (m_ne s))
           (m_samples s ++ [(f, ([(m_np s, 1%Q)], [(S (m_np s), 1%Q)], [(KF (m_ne s), 1%Q)]))])
           (m_cons s ++ (f, ls_cons0 (m_np s) x0) :: map (fun d => (f, ls_cons (m_np s) d)) dirs)
+  | MEpsSub f p =>
+      (* the fresh leaf g0 = m_np s, the oracle call at p (gradient leaf S (m_np s), value leaf m_ne s), the fresh
+         value leaf epsilon = S (m_ne s), the fresh leaves y = S (S (m_np s)) and fy = S (S (m_ne s)), the sample
+         (y, g0, fy) and the constraint on f *)
+      mkM (S (S (S (m_np s)))) (S (S (S (m_ne s))))
+          (m_samples s ++ [(f, (p, [(S (m_np s), 1%Q)], [(KF (m_ne s), 1%Q)]));
+                           (f, ([(S (S (m_np s)), 1%Q)], [(m_np s, 1%Q)], [(KF (S (S (m_ne s))), 1%Q)]))])
+          (m_cons s ++ [(f, epssub_cons (m_np s) (m_ne s) p)])
+  | MBregGrad h gx0 sx0 gamma =>
+      mkM (S (m_np s)) (S (m_ne s))
+          (m_samples s ++ [(h, ([(m_np s, 1%Q)], breg_dual sx0 gx0 gamma, [(KF (m_ne s), 1%Q)]))]) (m_cons s)
+  | MBregProx h f sx0 gamma =>
+      (* x = m_np s, gx = S (m_np s), fx = m_ne s, hx = S (m_ne s); first the sample on f, then the one on h *)
+      mkM (S (S (m_np s))) (S (S (m_ne s)))
+          (m_samples s ++ [(f, ([(m_np s, 1%Q)], [(S (m_np s), 1%Q)], [(KF (m_ne s), 1%Q)]));
+                           (h, ([(m_np s, 1%Q)], breg_dual sx0 [(S (m_np s), 1%Q)] gamma, [(KF (S (m_ne s)), 1%Q)]))])
+          (m_cons s)
+  | MInexactProx f x0 gamma PDgapI =>
+      (* v = m_np s, w = S .., x = S (S ..), gx = S (S (S ..)); fw = m_ne s, fx = S .., eps_var = S (S ..) *)
+      mkM (S (S (S (S (m_np s))))) (S (S (S (m_ne s))))
+          (m_samples s ++ [(f, ([(S (m_np s), 1%Q)], [(m_np s, 1%Q)], [(KF (m_ne s), 1%Q)]));
+                           (f, ([(S (S (m_np s)), 1%Q)], [(S (S (S (m_np s))), 1%Q)], [(KF (S (m_ne s)), 1%Q)]))])
+          (m_cons s ++ [(f, ip_cons PDgapI (m_np s) (m_ne s) x0 gamma)])
+  | MInexactProx f x0 gamma PDgapII =>
+      (* e = m_np s, gx = S ..; fx = m_ne s, eps_var = S .. *)
+      mkM (S (S (m_np s))) (S (S (m_ne s)))
+          (m_samples s ++ [(f, (ip2_point (m_np s) x0 gamma, [(S (m_np s), 1%Q)], [(KF (m_ne s), 1%Q)]))])
+          (m_cons s ++ [(f, ip_cons PDgapII (m_np s) (m_ne s) x0 gamma)])
+  | MInexactProx f x0 gamma PDgapIII =>
+      (* x = m_np s, gx = S .., w = S (S ..); fw = m_ne s, fx = S .., eps_var = S (S ..) *)
+      mkM (S (S (S (m_np s)))) (S (S (S (m_ne s))))
+          (m_samples s ++ [(f, ([(m_np s, 1%Q)], [(S (m_np s), 1%Q)], [(KF (S (m_ne s)), 1%Q)]));
+                           (f, ([(S (S (m_np s)), 1%Q)], ip3_grad (m_np s) x0 gamma, [(KF (m_ne s), 1%Q)]))])
+          (m_cons s ++ [(f, ip_cons PDgapIII (m_np s) (m_ne s) x0 gamma)])
   end.
 
 Definition mrun (ops : list mop) (s : mstate) : mstate := fold_left mstep ops s.
@@ -113,6 +226,11 @@ Definition op_wf (s : mstate) (o : mop) : bool :=
   | MInexact _ p _ _ => keys_below (m_np s) p
   | MLineSearch _ x0 dirs =>
       keys_below (m_np s) x0 && nodupb (keys x0) && forallb (fun d => keys_below (m_np s) d && nodupb (keys d)) dirs
+  | MEpsSub _ p => keys_below (m_np s) p && nodupb (keys p)
+  | MBregGrad _ gx0 sx0 _ =>
+      keys_below (m_np s) gx0 && nodupb (keys gx0) && keys_below (m_np s) sx0 && nodupb (keys sx0)
+  | MBregProx _ _ sx0 gamma => keys_below (m_np s) sx0 && nodupb (keys sx0) && qpos gamma
+  | MInexactProx _ x0 gamma _ => keys_below (m_np s) x0 && nodupb (keys x0) && qpos gamma
   | _ => true
   end.
 
@@ -123,9 +241,13 @@ Fixpoint mwf (ops : list mop) (s : mstate) : bool :=
   end.
 
 (** a linear-optimization step whose direction is the zero vector records a sample with an EMPTY gradient
-    dictionary, which PEPit then also lists as a stationary point of the function *)
+    dictionary, which PEPit then also lists as a stationary point of the function; likewise a Bregman gradient step
+    whose dual point sx0 - gamma * gx0 is the zero vector, and a Bregman proximal step of step size 0 (for a non-zero
+    step size the recorded dual point mentions the fresh leaf gx) *)
 Definition linopt_dir_nonzero (o : mop) : bool :=
   match o with
   | MLinOpt _ dir => match prune (p_neg dir) with [] => false | _ => true end
+  | MBregGrad _ gx0 sx0 gamma => match breg_dual sx0 gx0 gamma with [] => false | _ => true end
+  | MBregProx _ _ _ gamma => negb (Qeq_bool gamma 0)
   | _ => true
   end.
